@@ -336,10 +336,13 @@ _prefs = st.one_of(_one_pref, _one_pref, _one_pref, _one_pref, _one_pref, st.lis
 _subs = st.sampled_from([0, 1, 1, 1, 2, 3])
 _user_ids = st.lists(st.sampled_from(USER_IDS), min_size=1, max_size=7, unique=True)
 _user_ids_many = st.lists(st.sampled_from(USER_IDS), min_size=4, max_size=8, unique=True)
-_contrib_ids = st.lists(st.sampled_from(USER_IDS[:8] + [None, "stranger"]), max_size=4, unique=True)
+# a contributor is (id, display name); the same user contributing again under a changed display name is a second element of
+# EngineData.contributors (Contributor equality includes the name), so one id can occur more than once
+_contrib_pairs = st.lists(st.tuples(st.sampled_from(USER_IDS[:8] + [None, "stranger"]), st.sampled_from(["NAME", "NAME", "NAME", "Name B."])),
+                          max_size=5, unique=True)
 _age = st.sampled_from([0, 0, 0, 1, 299, 301, 86400, None])
 _unit = st.fixed_dictionaries({"id": st.sampled_from(UNIT_IDS), "required_roles": st.one_of(st.builds(list), _roles, _roles_nonempty, _roles_nonempty),
-                               "contributors": _contrib_ids.map(lambda ids: [[i, "NAME"] for i in ids])})
+                               "contributors": _contrib_pairs.map(lambda ps: [[i, n] for i, n in ps])})
 _topic_pick = st.sampled_from(TOPICS + ["new_contributor", "new_contributor"])
 _idx = st.integers(0, 1 << 20)
 _n_pub = st.integers(1, 3)
@@ -380,6 +383,11 @@ def cases(draw):
         cid = None
         if topic == "new_contributor":
             cid = (ids + ["stranger"])[draw(_idx) % (len(ids) + 1)]
+            if draw(_bias):
+                # the notification is published after the contributor was added (FromFrontend.add_contributor), possibly for
+                # the second time under another display name
+                unit = dict(unit, contributors=[c for c in unit["contributors"] if c != [cid, "NAME"]] + [[cid, "NAME"]]
+                            + ([[cid, "Name B."]] if draw(_coin) and [cid, "Name B."] not in unit["contributors"] else []))
         pubs.append({"unit": unit, "topic": topic, "contributor_id": cid, "age_s": draw(_age)})
     return {"users": users, "publishes": pubs}
 
